@@ -211,7 +211,9 @@ def generate(rng, tier):
         cs |= set(rng.sample(range(last.data_pos, n), min(250, n - last.data_pos)))
         cuts = sorted(cs)
     return {'spec': spec, 'ops': reqs, 'cuts': cuts, 'short_seed': rng.getrandbits(32) if rng.random() < 0.3 else None,
-            'drop_file': rng.random() < 0.12}
+            'drop_file': rng.random() < 0.12,
+            # the last segment's chunk restated as 1, 2 or 4 GiB long (see check_stated_huge)
+            'declared_huge': rng.random() < 0.2, 'huge_bytes': rng.choice([2**30, 2**31, 2**32])}
 
 
 def daqmx_sig(spec):
@@ -390,6 +392,8 @@ def execute(case):
                     res.probe('cut-in-second-buffer')
             if len(res.violations) > 3:
                 break
+        if case.get('declared_huge') and not res.violations:
+            res.violations += check_stated_huge(case, w, spec, st, res)
         st.fs.faults_fired['crash'] = st.fs.faults_fired.get('crash', 0) + len(cuts)
         for k, v_ in st.fs.faults_fired.items():
             res.fault(k, v_)
@@ -398,18 +402,88 @@ def execute(case):
 
 
 def check_cut(w, c, st, res):
+    return check_bytes(w, w.data[:c], w.guaranteed(c), complete_rows(w, c), c, st, res)
+
+
+def stated_huge_file(w, spec, huge_bytes, declared_offset):
+    """The bytes of the world with the DAQmx chunk of its last segment restated as `huge_bytes` long (an acquisition set up
+    for a long record that stopped after a few rows), or None when the last segment is not of the simple shape this is
+    done for: metadata present, one chunk, every data object listed in full with one common length, one raw buffer."""
+    import struct
+    last, seg = w.segs[-1], spec['segments'][-1]
+    if not last.has_meta or last.chunks != 1 or not last.chunk_size:
+        return None
+    listed = [L for L in seg.get('listed', []) if L.get('type') == 'daqmx' and L.get('index') == 'full']
+    data_paths = set(p for (p, h, _i) in last.active if h)
+    if not listed or set(L['path'] for L in listed) != data_paths:
+        return None
+    widths = listed[0]['daqmx']['widths']
+    counts = set(L['count'] for L in listed)
+    if len(widths) != 1 or len(counts) != 1 or list(counts)[0] < 1:
+        return None
+    n, e = list(counts)[0], last.endian
+    big = huge_bytes // widths[0] + 7
+    data = bytearray(w.data)
+    lo, hi = last.pos + fmt.LEAD_IN, last.data_pos
+    found = 0
+    for k in sorted(set(len(L['daqmx']['scalers']) for L in listed)):
+        pat = struct.pack(e + 'LQL', 1, n, k)
+        at = data.find(pat, lo, hi)
+        while at >= 0:
+            data[at:at + len(pat)] = struct.pack(e + 'LQL', 1, big, k)
+            found += 1
+            at = data.find(pat, at + len(pat), hi)
+    if found != len(listed):
+        return None
+    if declared_offset:
+        raw_off = struct.unpack(e + 'Q', bytes(data[last.pos + 20:last.pos + 28]))[0]
+        data[last.pos + 12:last.pos + 20] = struct.pack(e + 'Q', raw_off + big * widths[0])
+    return bytes(data), n, widths[0]
+
+
+def check_stated_huge(case, w, spec, st, res):
+    """Cut files (and, with the real size in the lead-in, the complete file) whose last segment states a DAQmx chunk of
+    1, 2 or 4 GiB: what is read is the rows that exist."""
     out = []
-    st.put('cut.tdms', w.data[:c])
-    guaranteed = w.guaranteed(c)
-    maxrows = complete_rows(w, c)
+    last = w.segs[-1]
+    for declared_offset in (False, True):
+        made = stated_huge_file(w, spec, case['huge_bytes'], declared_offset)
+        if made is None:
+            return out
+        data, n, width = made
+        res.probe('daqmx-stated-huge-chunk')
+        ends = sorted(set([last.data_pos, last.data_pos + 1, last.data_pos + n * width - 1, last.data_pos + n * width] +
+                          [last.data_pos + r * width + d for r in (1, n // 2) for d in (0, 1)]))
+        for c in ends:
+            if not (last.data_pos <= c <= len(data)) or (c < len(data) and not declared_offset and False):
+                continue
+            rows = (c - last.data_pos) // width
+            maxrows, guaranteed = {}, {}
+            for path, ch in w.chans.items():
+                prev = ch.count - ch.seg_counts.get(last.k, 0)
+                here = rows if ch.seg_counts.get(last.k, 0) else 0
+                maxrows[path] = prev + here
+                guaranteed[path] = prev + (here if (c == len(data) and not declared_offset) else 0)
+            res.sub_evals += 1
+            out += check_bytes(w, data[:c], guaranteed, maxrows, 'stated %d-byte chunk, %s next-segment offset, file ends at %d' % (
+                case['huge_bytes'], 'stated' if declared_offset else 'real', c), st, res, stated_huge=True)
+            if len(out) > 3:
+                return out
+    return out
+
+
+def check_bytes(w, data, guaranteed, maxrows, c, st, res, **sig):
+    out = []
+    st.put('cut.tdms', data)
+    c = ('cut %d' % c) if isinstance(c, int) else c
     try:
         eager = lib.TdmsFile.read(st.source('simstream', 'cut.tdms'))
     except Exception as exc:
-        return [V('C11.cut-raises', 'cut %d: %s: %s' % (c, type(exc).__name__, exc), exc=type(exc).__name__)]
+        return [V('C11.cut-raises', '%s: %s: %s' % (c, type(exc).__name__, exc), exc=type(exc).__name__, **sig)]
     try:
         lazy = lib.TdmsFile.open(st.source('simstream', 'cut.tdms'))
     except Exception as exc:
-        return [V('C11.cut-raises', 'cut %d: lazy open %s: %s' % (c, type(exc).__name__, exc), exc=type(exc).__name__)]
+        return [V('C11.cut-raises', '%s: lazy open %s: %s' % (c, type(exc).__name__, exc), exc=type(exc).__name__, **sig)]
     try:
         for g in eager.groups():
             for chn in g.channels():
@@ -420,23 +494,23 @@ def check_cut(w, c, st, res):
                     got = ops.norm(chn.raw_scaler_data)
                     lz = ops.norm(ops.chan(lazy, w, chn.path).read_data(scaled=False))
                 except Exception as exc:
-                    out.append(V('C11.cut-raises', 'cut %d: %s: %s: %s' % (c, chn.path, type(exc).__name__, exc), exc=type(exc).__name__))
+                    out.append(V('C11.cut-raises', '%s: %s: %s: %s' % (c, chn.path, type(exc).__name__, exc), exc=type(exc).__name__, **sig))
                     continue
                 n = _lazy.full_len(got) if got[1] else 0
                 res.compared += 1
                 if len(chn) != n:
-                    out.append(V('C11.cut-len', 'cut %d: %s len()=%d, %d values' % (c, chn.path, len(chn), n)))
+                    out.append(V('C11.cut-len', '%s: %s len()=%d, %d values' % (c, chn.path, len(chn), n)))
                 if n > maxrows[chn.path]:
-                    out.append(V('C11.cut-incomplete-row', 'cut %d: %s returns %d values but only %d lie in complete rows' % (
+                    out.append(V('C11.cut-incomplete-row', '%s: %s returns %d values but only %d lie in complete rows' % (
                         c, chn.path, n, maxrows[chn.path])))
                     continue
                 if n < guaranteed[chn.path]:
-                    out.append(V('C11.cut-loses-data', 'cut %d: %s returns %d values, %d guaranteed' % (c, chn.path, n, guaranteed[chn.path])))
+                    out.append(V('C11.cut-loses-data', '%s: %s returns %d values, %d guaranteed' % (c, chn.path, n, guaranteed[chn.path])))
                 full = _lazy.model_full(ch, True)
                 if n and got != _lazy.take_norm(full, range(n)):
-                    out.append(V('C11.cut-not-prefix', 'cut %d: %s scaler data is not a prefix of the complete file' % (c, chn.path)))
+                    out.append(V('C11.cut-not-prefix', '%s: %s scaler data is not a prefix of the complete file' % (c, chn.path)))
                 if n and lz != got:
-                    out.append(V('C11.cut-lazy-eager', 'cut %d: %s lazy %s eager %s' % (c, chn.path, _lazy._short(lz), _lazy._short(got))))
+                    out.append(V('C11.cut-lazy-eager', '%s: %s lazy %s eager %s' % (c, chn.path, _lazy._short(lz), _lazy._short(got))))
     finally:
         lazy.close()
     return out
